@@ -257,3 +257,26 @@ fn test_toposort_impl_cycles() {
     let res = toposort_impl(&dag);
     assert!((res == vec![0, 1, 2]) || (res == vec![1, 0, 2]))
 }
+
+/// Thin wrappers exposing the crate-private ordering functions to the external verification
+/// harness. Compiled only with `--cfg typeshare_verif`.
+#[cfg(typeshare_verif)]
+pub mod verif_hooks {
+    use crate::rust_types::RustItem;
+
+    /// `toposort_impl` on an arbitrary graph.
+    #[allow(clippy::ptr_arg)]
+    pub fn toposort_impl(graph: &Vec<Vec<usize>>) -> Vec<usize> {
+        super::toposort_impl(graph)
+    }
+
+    /// `sort_by_indices` on arbitrary data and indices.
+    pub fn sort_by_indices<T>(data: &mut [T], indices: Vec<usize>) {
+        super::sort_by_indices(data, indices)
+    }
+
+    /// `topsort` on an arbitrary item list.
+    pub fn topsort(things: &mut [RustItem]) {
+        super::topsort(things)
+    }
+}
